@@ -1,4 +1,5 @@
 """C01 — validation verdicts match JSON Schema Draft 6 (with the documented deviations)."""
+import copy
 import json
 import os
 import random
@@ -73,6 +74,25 @@ def make_cases(rng, tier, res, stats):
         if rng.random() < 0.5:
             vals.append(gen.lookalike(rng, vals[0]))
         items.append((s, vals + no_value(s), stream))
+    # documents after $ref resolution: one object schema (the same JSON) in several positions
+    for i in range(n_schemas // 8):
+        shared = gen.gen_schema(rng, gen.Cfg(max_depth=2), force_kind="object")
+        if not isinstance(shared, dict):
+            continue
+        shared.setdefault("title", rng.choice(["Shared", "Point", "Item"]))
+        shared["type"] = "object"
+        holder = {"type": "object", "title": "Holder%d" % (i % 3), "properties": {"a": copy.deepcopy(shared), "b": copy.deepcopy(shared)}}
+        r = rng.random()
+        if r < 0.4:
+            holder["properties"]["l"] = {"type": "array", "items": copy.deepcopy(shared)}
+        elif r < 0.7:
+            holder["properties"]["c"] = {"anyOf": [copy.deepcopy(shared), {"type": "null"}]}
+        else:
+            holder["additionalProperties"] = copy.deepcopy(shared)
+        if rng.random() < 0.4:
+            holder["required"] = ["a"]
+        vals = [gen.gen_value(rng, holder) for _ in range(n_vals)]
+        items.append((holder, vals + no_value(holder), "shared-subschema"))
     return items
 
 
@@ -138,21 +158,24 @@ def run(tier, seed, replay=None):
     codes, err = sc.eval_codes(["Elem", "Validate", "Parser", "RunSchema"], "run_case_c01", cases, tag="c01")
     res.corr_error = err
     res.corr_mismatches = []
-    stats["theorem_applies"] = {"cases": 0, "calls": 0, "class_free_cases": 0, "with_classes_cases": 0}
+    stats["theorem_applies"] = {"cases": 0, "calls": 0, "class_free_cases": 0, "with_classes_cases": 0, "with_revisited_schemas_cases": 0}
     for idx, cs in sorted((codes or {}).items()):
         s, ob, stream = metas[idx]
         if 9 in cs:
             stats["theorem_applies"]["class_free_cases"] += 1
         elif 10 in cs:
             stats["theorem_applies"]["with_classes_cases"] += 1
-        if 9 in cs or 10 in cs:
-            # the schema lies in the fragment of C01_validity_plain (9) or C01_validity_classes_top (10): on these cases the
+        elif 11 in cs:
+            stats["theorem_applies"]["with_revisited_schemas_cases"] += 1
+        if 9 in cs or 10 in cs or 11 in cs:
+            # the schema lies in the fragment of C01_validity_plain (9), C01_validity_classes_top (10) or, with schema objects met again,
+            # C01_validity_classes_revisits (11): on these cases the
             # model's verdicts are Draft 6 by theorem, so the implementation is tied to Draft 6 by correspondence alone
             stats["theorem_applies"]["cases"] += 1
             stats["theorem_applies"]["calls"] += len(ob["vals"])
-            cs = [c for c in cs if c not in (9, 10)]
+            cs = [c for c in cs if c not in (9, 10, 11)]
             if 5 in cs:
-                res.corr_mismatches.append({"schema": s, "codes": cs, "what": "model verdict differs from valid6 on a schema of the proved fragment: contradicts C01_validity_plain / C01_validity_classes_top (cannot happen unless the build is inconsistent)"})
+                res.corr_mismatches.append({"schema": s, "codes": cs, "what": "model verdict differs from valid6 on a schema of the proved fragment: contradicts C01_validity_plain / C01_validity_classes_top / C01_validity_classes_revisits (cannot happen unless the build is inconsistent)"})
             if not cs:
                 continue
         for c in cs:
